@@ -14,6 +14,15 @@ K  crashes     create() / rename() / unlink() in a forked child whose os / tempf
                counting proxies; the child is killed (os._exit(137)) immediately before and
                immediately after EVERY call, plus short-write variants; the parent inspects the target.
 
+Tiers.  quick: every sequence up to length 3 (length 4 without model-no-ops for the plain two-instance
+layout) for 2 instances x {both on one path, second on "<path>.2"} x {root/root, root/nobody,
+nobody/root, nobody/www-data, nobody/nobody} x both pid orders, 3 instances up to length 2-3, plus a
+seeded sample of lengths 4-8 in every configuration; thorough: ALL sequences up to length 5 for the
+plain two-instance layout (instances interchangeable, so only sequences that mention A first, run in
+both pid orders), up to length 4 plus length 5 without model-no-ops for the uid / ".2" layouts, 3
+instances up to length 3-4, larger samples.  Parts M and K are complete in both tiers.
+A sequence must end in a Pidfile operation (a trailing harness event has nothing to judge).
+
 Reference model.  Contents are symbolic tokens: None (absent) | "pid:<slot><generation>" |
 "dead:<k>" | "garbage" | "empty" | "raw:<hex>" (anything else that is observed).  Relative to a
 calling instance a content is  absent / self / live (names another live process) / stale (names a
@@ -69,6 +78,10 @@ ASSUMPTIONS = [
     "(reach.info_leftover_tempfiles) and not judged",
     "crash points are the calls Pidfile makes through its module globals os.*, tempfile.* and open() (and the methods "
     "of the file object open() returned); os.getpid and os.path.* are passed through uncounted",
+    "two instances that start on the same path with the same uid are interchangeable: only sequences that mention A "
+    "before B are run, each with pid(A) < pid(B) and with pid(A) > pid(B) (helpers are re-forked until the order holds)",
+    "histories are sequential (one operation at a time, as the quantifier says); two masters racing through "
+    "validate()/rename() at the same instant are not explored",
     "a deviation is reported only if it reproduces in two further executions of the same history with fresh processes "
     "(pid_max is 32768 here, so a 'dead' pid may be reused by an unrelated process); a non-reproducing one is counted in "
     "info.transient_deviation, a partly reproducing one makes the run inconclusive",
